@@ -3,6 +3,5 @@ CONSTANTS
   Impl = "intended"
   Walk = "sorted"
   Slices <- NoSlices
-  QuantsOf <- NoQuants
 SPECIFICATION TSpec
 CHECK_DEADLOCK FALSE
